@@ -184,3 +184,61 @@ def import_method(u, rel, impl_rx, name, key, overlay_rel, from_unit, prep=None)
     if prep:
         prep(f)
     u.import_fn(f, key, overlay_rel, from_unit, wrap=(impl_header(u, rel, impl_rx, name), '}'))
+
+
+def expand_if_chain(f, u):
+    """R-ifchain: `if_chain! { if A; if let P = E; ...; then { T } else { F } }` -> the nested `if` / `if let` the macro of the if_chain crate
+    expands to: `if A { if let P = E { ... { T } ... } else { F } } else { F }` (the else block is repeated on every level, as the macro does;
+    without an else block the conditions simply nest)."""
+    from vx.rs import match_close, find_depth0
+    n = 0
+    while True:
+        m = re.search(r'\bif_chain!\s*\{', f.mask)
+        if not m:
+            break
+        o = m.end() - 1
+        c = match_close(f.mask, o)
+        inner_a, inner_b = o + 1, c
+        # split the clauses at depth-0 ';' up to the `then` keyword
+        tm = None
+        for t in find_depth0(f.mask, r'\bthen\s*\{', inner_a, inner_b):
+            tm = t
+            break
+        if tm is None:
+            raise LostAnchor('if_chain! without then-block in %s' % f.name)
+        conds = []
+        last = inner_a
+        for s in find_depth0(f.mask, r';', inner_a, tm.start()):
+            conds.append(f.text[last:s.start()].strip())
+            last = s.end()
+        if f.mask[last:tm.start()].strip():
+            raise LostAnchor('if_chain!: text between the last condition and then in %s' % f.name)
+        then_o = tm.end() - 1
+        then_c = match_close(f.mask, then_o)
+        then_block = f.text[then_o:then_c + 1]
+        rest = f.mask[then_c + 1:inner_b]
+        else_block = None
+        em = re.match(r'\s*else\s*\{', rest)
+        if em:
+            eo = then_c + 1 + em.end() - 1
+            ec = match_close(f.mask, eo)
+            else_block = f.text[eo:ec + 1]
+            if f.mask[ec + 1:inner_b].strip():
+                raise LostAnchor('if_chain!: text after the else block in %s' % f.name)
+        elif rest.strip():
+            raise LostAnchor('if_chain!: unexpected text after then-block in %s' % f.name)
+        for cnd in conds:
+            if not re.match(r'if\b', cnd):
+                raise LostAnchor('if_chain!: clause %r is not an if / if let' % cnd)
+        out = then_block
+        for cnd in reversed(conds):
+            out = '%s %s' % (cnd, out)
+            if else_block is not None:
+                out += ' else %s' % else_block
+            out = '{ %s }' % out
+        out = out[2:-2]   # outermost braces are not needed
+        f.text = f.text[:m.start()] + out + f.text[c + 1:]
+        f._rescan()
+        n += 1
+    u.count('R-ifchain', n)
+    return n
